@@ -196,6 +196,11 @@ def enumerated_shapes():
         add(f"try: [{spec[0]}] except else finally", lambda g, spec=spec: g.compound("try_full", None, inner(g, spec, False)))
         add(f"try: raise except: [{spec[0]}]", lambda g, spec=spec: g.compound("try_except", None, ["raise ValueError('x')"], inner(g, spec, False)))
         add(f"[{spec[0]}] at top", lambda g, spec=spec: inner(g, spec, False))
+        # a statement that may raise, then the statement under test, as direct children of a try / with body (the handler falls through to the tail)
+        for first in ("assert_unknown", "probe"):
+            for kind in ("try_except", "try_full", "try_finally", "with", "with_quiet"):
+                add(f"{kind}: {first}; [{spec[0]}]", lambda g, spec=spec, first=first, kind=kind: g.compound(kind, None, g.simple(first, False) + inner(g, spec, False)))
+        add(f"try: if c3: raise; [{spec[0]}] except", lambda g, spec=spec: g.compound("try_except", None, g.compound("if", "c3", ["raise ValueError('v')"]) + inner(g, spec, False)))
         for cond in ("c1", "True"):
             add(f"while {cond}: for it: [{spec[0]}]",
                 lambda g, spec=spec, cond=cond: g.compound("while", cond, g.compound("for", "it", inner(g, spec, True)) + [g.probe(), "break"]))
